@@ -42,6 +42,7 @@ type Addr struct {
 }
 
 type World struct {
+	knownObl []knownFinding // open findings (known-findings.txt): their clauses are not assumed at call sites
 	repo    string
 	prog    *ssa.Program
 	pkgs    map[string]*ssa.Package
